@@ -14,6 +14,7 @@ package main
 import (
 	"bufio"
 	"encoding/json"
+	"errors"
 	"flag"
 	"fmt"
 	"os"
@@ -21,10 +22,14 @@ import (
 	"runtime"
 	"runtime/debug"
 	"sort"
+
+	"github.com/ohler55/ojg/gen"
+	"github.com/ohler55/ojg/oj"
 )
 
 // Out is what one call hands back to the driver.
 type Out struct {
+	Err      error          // the error value handed to the caller (nil: none); kept and re-projected like every result
 	Res      map[string]any // {c: ok|err|perr|panic, l, col, v: abstract value}
 	View     func() any     // re-inspects the value(s) the caller still holds (nil: nothing held)
 	Scribble func()         // the caller overwrites its input buffer (nil: no input buffer)
@@ -95,10 +100,12 @@ func runCall(k *Kind, inst any) (o Out) {
 	defer func() {
 		if r := recover(); r != nil {
 			cls := "panic"
-			if _, ok := r.(error); ok {
+			var perr error
+			if e, ok := r.(error); ok {
 				cls = "panic-error"
+				perr = e // the Must* variants hand the error to the caller through the panic
 			}
-			o = Out{Res: map[string]any{"c": cls, "l": 0, "col": 0, "v": none}}
+			o = Out{Err: perr, Res: map[string]any{"c": cls, "l": 0, "col": 0, "v": none}}
 		}
 	}()
 	return k.Run(inst)
@@ -107,9 +114,48 @@ func runCall(k *Kind, inst any) (o Out) {
 type event struct {
 	K  string `json:"k"`
 	X  string `json:"x"`
-	R  int    `json:"r"`
-	S  int    `json:"s"`
-	RC []int  `json:"rc"`
+	R  int    `json:"r"`  // result as compared with the fresh instance (error by class and position)
+	H  int    `json:"h"`  // everything handed to the caller, projected when it was handed out: {v, e}
+	S  int    `json:"s"`  // the same, re-projected after the caller scribbled over its input
+	RC []int  `json:"rc"` // what calls 1..j-1 handed out, re-projected after this call
+}
+
+// errProj projects an error VALUE the caller holds: its text, and what errors.As finds in it. It is evaluated
+// again at every re-inspection, so an error object that a later call rewrites shows up.
+func errProj(err error) any {
+	if err == nil {
+		return map[string]any{"t": "noerr"}
+	}
+	p := map[string]any{"t": "err", "msg": safeMsg(err), "as": "", "l": 0, "col": 0, "pmsg": ""}
+	var pe *oj.ParseError
+	var ge *gen.ParseError
+	switch {
+	case errors.As(err, &pe):
+		p["as"], p["l"], p["col"], p["pmsg"] = "oj.ParseError", pe.Line, pe.Column, pe.Message
+	case errors.As(err, &ge):
+		p["as"], p["l"], p["col"], p["pmsg"] = "gen.ParseError", ge.Line, ge.Column, ge.Message
+	}
+	return p
+}
+
+func safeMsg(err error) (s string) {
+	defer func() {
+		if recover() != nil {
+			s = "(Error() panicked)"
+		}
+	}()
+	return err.Error()
+}
+
+// handed projects everything call o handed to the caller, as it is NOW.
+func handed(o *Out) any {
+	var v any
+	if o.View != nil {
+		v = safeView(o.View)
+	} else {
+		v = o.Res["v"] // strings and other immutable results
+	}
+	return map[string]any{"v": v, "e": errProj(o.Err)}
 }
 
 // replay runs one history on one instance and returns its events.
@@ -121,7 +167,7 @@ func replay(f *Family, names []string, in *interner) []event {
 		inst = f.New()
 	}
 	evs := make([]event, 0, len(names))
-	views := make([]func() any, 0, len(names))
+	outs := make([]*Out, 0, len(names)) // the driver keeps EVERY result of the history
 	for _, n := range names {
 		k := f.kind(n)
 		if k == nil {
@@ -129,23 +175,16 @@ func replay(f *Family, names []string, in *interner) []event {
 			os.Exit(2)
 		}
 		o := runCall(k, inst)
-		ev := event{K: k.Name, X: k.Exempt, R: in.id(o.Res), RC: []int{}}
+		ev := event{K: k.Name, X: k.Exempt, R: in.id(o.Res), H: in.id(handed(&o)), RC: []int{}}
 		if o.Scribble != nil {
 			o.Scribble()
 		}
-		if o.View != nil {
-			ev.S = in.id(safeView(o.View))
-		} else {
-			ev.S = in.id(o.Res["v"])
+		ev.S = in.id(handed(&o))
+		for _, p := range outs { // re-project ALL earlier results after this call
+			ev.RC = append(ev.RC, in.id(handed(p)))
 		}
-		for _, v := range views {
-			if v == nil {
-				ev.RC = append(ev.RC, 0)
-			} else {
-				ev.RC = append(ev.RC, in.id(safeView(v)))
-			}
-		}
-		views = append(views, o.View)
+		oc := o
+		outs = append(outs, &oc)
 		evs = append(evs, ev)
 	}
 	return evs
@@ -295,19 +334,12 @@ func differs(f *Family, names []string, j, p int, fr map[string]int, in *interne
 	}
 	e := evs[j-1]
 	if p == 0 {
-		if e.R != fr[e.K] {
-			return true
-		}
-		var r map[string]json.RawMessage
-		_ = json.Unmarshal(in.vals[e.R-1], &r)
-		return string(r["v"]) != string(in.vals[e.S-1])
+		return e.R != fr[e.K] || e.H != e.S
 	}
 	if p >= j || p-1 >= len(e.RC) || e.RC[p-1] == 0 {
 		return false
 	}
-	var r map[string]json.RawMessage
-	_ = json.Unmarshal(in.vals[evs[p-1].R-1], &r)
-	return string(r["v"]) != string(in.vals[e.RC[p-1]-1])
+	return evs[p-1].H != e.RC[p-1]
 }
 
 func cmdShrink() {
